@@ -58,24 +58,34 @@ KeysNE3  == KeysAll3 \ {<<>>}
 KeysTiny == {<<97>>, <<97, 255>>, <<255>>}
 KeysTwo  == {<<97>>, <<97, 255>>}
 ProbesTiny == {<<>>, <<97>>, <<97, 255>>, <<255>>, <<255, 255>>}
-KeysSucc == {<<97>>, <<97, 255>>, <<97, 255, 0>>, <<98>>, <<98, 0>>, <<255>>, <<255, 255>>}
+KeysSucc4 == {<<97, 255>>, <<97, 255, 0>>, <<98>>, <<98, 0>>}
+KeysSim  == {<<>>, <<0>>, <<97>>, <<97, 0>>, <<97, 255>>, <<255>>, <<255, 255>>}
+ProbesSim == KeysSim \cup {<<97, 97>>, <<255, 255, 255>>}
+BoundsSim == {<<>>, <<97>>, <<97, 255>>, <<255>>}
 NoKeys == {}
 
 PrefixAll1 == KeysAll1
 PrefixAll2 == KeysAll2
 PrefixTiny == {<<>>, <<97>>, <<255>>}
-PrefixSucc == {<<97, 255>>, <<97>>, <<255>>, <<255, 255>>}
+PrefixTiny2 == {<<97>>, <<255>>}
+RangeTiny2  == {<< <<97>>, <<255>> >>, << <<97, 255>>, None >>}
+ProbesTiny2 == {<<>>, <<97>>, <<97, 255>>, <<255>>}
+PrefixSucc == {<<97, 255>>, <<98>>}
+ProbesSucc == {<<97>>, <<97, 255, 0>>, <<98>>, <<255>>}
 RangeTiny  == {<< <<>>, None >>, << <<97>>, <<255>> >>, << <<97, 255>>, None >>, << <<97>>, <<97, 255>> >>}
 RangesOver(S) == {<<s, e>> : s \in S, e \in (S \ {<<>>}) \cup {None}}
 RangeAll1 == RangesOver(KeysAll1)
 RangeAll2 == RangesOver(KeysAll2)
 RangeSucc == RangesOver({<<97>>, <<98>>, <<255>>})
+RangeSim  == RangesOver(BoundsSim)
 
 ValsTiny  == {<<>>, <<1>>}
 ValsEmpty == {<<>>}
+ValsOne == {<<1>>}
 NoRanges == {}
 OperandsNone  == {1}
 OperandsSmall == {-1, 1, 2}
+OperandsTwo   == {-1, 2}
 OperandsWide  == {-3, -1, 1, 2}
 ValsSmall == {<<>>, <<0>>, <<1>>, <<2>>}
 ValsWide  == {<<>>} \cup {<<c>> : c \in 0..7}
@@ -96,12 +106,14 @@ ASSUME OrderIsTotal ==
   /\ \A a, b \in AllKeys : (Less(a, b) /\ ~Less(b, a) /\ a # b)
                         \/ (Less(b, a) /\ ~Less(a, b) /\ a # b)
                         \/ (a = b /\ ~Less(a, b))
-  /\ \A a, b, c \in AllKeys : Less(a, b) /\ Less(b, c) => Less(a, c)
+  /\ Cardinality(AllKeys) > 24     \* (cubic; checked in the design configs, skipped for the big trace key space)
+     \/ \A a, b, c \in AllKeys : Less(a, b) /\ Less(b, c) => Less(a, c)
   /\ \A a, b \in AllKeys : HasPrefix(b, a) => Leq(a, b)
 
 MinKey(S) == CHOOSE x \in S : \A y \in S : Leq(x, y)
 Rank(k, S) == Cardinality({x \in S : Less(x, k)}) + 1
-SortedKeys(S) == [i \in 1..Cardinality(S) |-> CHOOSE k \in S : Rank(k, S) = i]
+SortedKeys(S) == LET rk == [k \in S |-> Rank(k, S)]
+                 IN [i \in 1..Cardinality(S) |-> CHOOSE k \in S : rk[k] = i]
 
 (* The exclusive upper bound of a prefix: drop trailing 0xff bytes, then   *)
 (* increment the last byte; None when the prefix is all 0xff (or empty).   *)
@@ -204,7 +216,9 @@ VARIABLES
 vars == <<kv, kvs, pending, readers, iters, act>>
 
 Live(m) == {k \in Keys : m[k] # None}
-Scan(m) == LET S == Live(m) ks == SortedKeys(S) IN [i \in 1..Cardinality(S) |-> <<ks[i], m[ks[i]]>>]
+KeyOrder == SortedKeys(Keys)      \* all keys in byte order (a constant, evaluated once)
+Scan(m) == LET live == SelectSeq(KeyOrder, LAMBDA k : m[k] # None)
+           IN [i \in 1..Len(live) |-> <<live[i], m[live[i]]>>]
 Lookup(m, k) == IF k \in Keys THEN m[k] ELSE None
 EmptyMap == [k \in Keys |-> None]
 
@@ -258,6 +272,16 @@ MultiGet(r, ks) ==
   /\ readers[r].open
   /\ act' = [name |-> "MultiGet", r |-> r, ks |-> ks,
              ret |-> [j \in 1..Len(ks) |-> Lookup(readers[r].snap, ks[j])]]
+  /\ UNCHANGED <<kv, kvs, pending, readers, iters>>
+
+\* full scans (an unbounded iteration from the first key): of an open reader, and of a reader
+\* opened on the spot
+ScanReader(r) ==
+  /\ readers[r].open
+  /\ act' = [name |-> "ScanReader", r |-> r, ret |-> readers[r].scan]
+  /\ UNCHANGED <<kv, kvs, pending, readers, iters>>
+ScanStore ==
+  /\ act' = [name |-> "ScanStore", ret |-> kvs]
   /\ UNCHANGED <<kv, kvs, pending, readers, iters>>
 
 (* ---- iterators ---- *)
@@ -320,6 +344,8 @@ Next ==
   \/ \E r \in Readers : ReaderOpen(r) \/ ReaderClose(r)
   \/ ReadActions /\ \E r \in Readers : \/ \E k \in Probes : Get(r, k)
                                        \/ \E ks \in MultiGetArgs : MultiGet(r, ks)
+                                       \/ ScanReader(r)
+  \/ ReadActions /\ ScanStore
   \/ \E i \in Iters, r \in Readers : \/ \E p \in PrefixSet : IterOpen(i, r, "prefix", p, None)
                                      \/ \E se \in RangeSet : IterOpen(i, r, "range", se[1], se[2])
   \/ \E i \in Iters : \/ \E k \in Probes : Seek(i, k)
